@@ -661,6 +661,8 @@ def c14(run):
     # dumps whose sizes and lengths need 2- and 3-byte varints (string constants / identifiers / offsets of up to 2400 bytes)
     d2, n2 = real_dumps(run, "C14:sizes", [("Gen_Format", gen_cfg(dict(Scope="sizes", MaxConsts=1)), {})], 400, stride=1, maxlen=12000)
     tlc_on_dumps(run, "C14:sizes-layout", d2, n2, ("RoundTrip",))
+    # the scaling-law programs (sizes of 0 .. 67 824 bytes in every section, the empty program): the dump loads and means the same
+    run.gen_replay("Gen_Format", gen_cfg(dict(Scope="sizes", MaxConsts=1)), ["replay-format"], "C14:sizes-load")
     # writing a file is a function of the program: dumps (and loads) running at the same time give the bytes each gives alone
     run.vh(["drive-dumpconc", "--n", "8", "--rounds", "8" if run.quick else "80", "--seed", str(run.seed)], "C14:concurrent")
     run.exhaustive = False
